@@ -94,6 +94,16 @@ entry("C06", "kalman_process", file=F + "observe/kalman.rs", impl=r"impl<T>\s+Ka
              dict(self=k_self(some(v("x"))), lhs="g_k_process A r q a b c (p, Some x) (z, u)", vars="r q a b c p x z u")],
       rhs="(({self.state.cov}, {self.state.value}), {ret})")
 
+KPROC = {"process": (F + "observe/kalman.rs", r"impl<T>\s+Kalman<T>", ["input", "control"])}
+entry("C06", "kalman_filter_plain", cls="Kalman", methods=KPROC, file=F + "observe/kalman.rs", impl=r"impl<T>\s+Filter<T>\s+for\s+Kalman<T>", fn="filter", divmode="checked", params={"input": v("z")},
+      cases=[dict(self=k_self(NONE), lhs="g_k_process A r q a b c (p, None) (z, azero A)", vars="r q a b c p z"),
+             dict(self=k_self(some(v("x"))), lhs="g_k_process A r q a b c (p, Some x) (z, azero A)", vars="r q a b c p x z")],
+      rhs="(({self.state.cov}, {self.state.value}), {ret})")
+entry("C06", "kalman_filter_control", cls="Kalman", methods=KPROC, file=F + "observe/kalman.rs", impl=r"impl<T>\s+Filter<\(T,\s*T\)>\s+for\s+Kalman<T>", fn="filter", divmode="checked", params={"input": v("z"), "control": v("u")},
+      cases=[dict(self=k_self(NONE), lhs="g_k_process A r q a b c (p, None) (z, u)", vars="r q a b c p z u"),
+             dict(self=k_self(some(v("x"))), lhs="g_k_process A r q a b c (p, Some x) (z, u)", vars="r q a b c p x z u")],
+      rhs="(({self.state.cov}, {self.state.value}), {ret})")
+
 # ---- C03 / C16 -----------------------------------------------------------------------------------------
 def ring(name, evicted=None, newname=None):
     """a circular buffer whose next push_back is assumed (lemma hypothesis) to evict `evicted` and leave `newname`"""
@@ -464,6 +474,17 @@ entry("C02", "median_insert_loop_step", cls="Median", file=MED_RS, impl=MED_IMPL
 # the whole filter: helpers inlined from their own source text, the loop summarised by insert_loop
 med_entry("C02", "median_filter", "filter", "Median.filter (aleb A) " + MED_S + " x", "Some (" + MED_REC + ", {ret})", impl=MED_FILTER, params={"input": v("x")},
           vars="(b : list (node T)) (c h m : nat) (x : T)")
+# Median::default: the node written into slot `index` of the uninitialised array is the node of the model's `init`
+def deep_for_body(ent):
+    pass
+entry("C02", "median_default_node", file=MED_RS, impl=r"impl<T,\s*const N: usize>\s+Default\s+for\s+Median<T,\s*N>", fn="default", params={}, select=("for", 0), unwrap_for=True,
+      imports="Base.Bits Model.Median", locals={"index": nat("index"), "item": ("unit",), "N": nat("n")},
+      script="intros. reflexivity.",
+      cases=[dict(self=("unit",), lhs="(fun i => {| value := @None T; previous := (i + n - 1) mod n; next := (i + 1) mod n |}) index", vars="(n index : nat)")], rhs="",
+      render=lambda sym, s_, r_, c_: sym.node_text(sym.final_env.vars["item"]))
+entry("C18", "hampel_filter_macro", cls="Hampel", methods={"filter_internal": (F + "hampel.rs", r"impl<T,\s*const N: usize>\s+Hampel<T,\s*N>", ["input", "factor"])},
+      file=F + "hampel.rs", impl=r"impl<const N: usize>\s+Filter<\$t>\s+for\s+Hampel<\$t,\s*N>", fn="filter", params={"input": v("x")}, locals={"$f": v("factor")},
+      cases=hampel_cases(), imports="Model.Median", rhs="Some ({self.state.median}, {ret})")
 # accessors (C17)
 ACC_IMPL = MED_IMPL_ACC
 for acc in ("median", "min", "max"):
@@ -771,6 +792,167 @@ ctor_entry("new_peek", "peek.rs", r"impl<T,\s*U>\s+From<T>\s+for\s+Peek<T,\s*U>"
 ctor_entry("new_cache", "cache.rs", r"impl<T,\s*U>\s+From<T>\s+for\s+Cache<T,\s*U>", "from", {"inner": src("(init e)")}, "init (ECache e)", "(e : expr)",
            lambda sym, s_, r, c: out_state(r, "(Cache %s %s)" % (s_[1]["state"][1]["inner"][2], _R.coq_V(s_[1]["state"][1]["cached"]))))
 
+# ---- C12 / C20 : construction, reset, guts round trip, derived Clone -------------------------------------
+# For every resettable filter: (i) the state its constructor (Default::default or WithConfig::with_config) builds is the
+# generic model's initial state; (ii) `reset` applied to an ARBITRARY state (every Option field Some, every number a
+# variable) gives that same state again - the body of reset is executed with Self::with_config / Self::default inlined from
+# their own source text; (iii) from_guts(into_guts(x)) rebuilds every field of x; (iv) Clone is derived (a source-level
+# assertion: no manual `impl Clone` / `fn clone_from` in the file), so `clone` and `clone_from` copy every field.
+# Proofs/Generic.v (gq_init_*) ties the generic initial states to the registry machines of C12 / C20.
+def rfile(rel): return F + rel
+RESET_TABLE = [
+  # name, file, type pattern, constructor, config value, arbitrary state, state template (S = the struct), model init
+  ("differentiate", "differentiate.rs", r"Differentiate<T>", "default", None, st(value=some(v("p"))), "{S.state.value}", "@g_diff_init T", r"impl<T>"),
+  ("integrate", "integrate.rs", r"Integrate<T>", "default", None, st(value=v("s")), "{S.state.value}", "g_int_init A", r"impl<T>"),
+  ("exp_mean", "mean/exp/mean.rs", r"Mean<T>", "with_config", st(inverse_width=v("w")), st(mean=some(v("m"))), "{S.state.mean}", "@g_ema_init T", r"impl<T>"),
+  ("alpha_beta", "observe/alpha_beta.rs", r"AlphaBeta<T>", "with_config", st(alpha=v("al"), beta=v("be")), st(velocity=v("vel"), value=some(v("s"))), "({S.state.velocity}, {S.state.value})", "g_ab_init A", r"impl<T>"),
+  ("kalman", "observe/kalman.rs", r"Kalman<T>", "with_config", st(r=v("r"), q=v("q"), a=v("a"), b=v("b"), c=v("c")), st(cov=v("p"), value=some(v("s"))), "({S.state.cov}, {S.state.value})", "g_k_init A", r"impl<T>"),
+  ("mean", "mean/mean.rs", r"Mean<T,\s*N>", "default", None, st(mean=some(v("sm")), taps=L("taps"), weight=v("wt")), "({S.state.mean}, {S.state.taps}, {S.state.weight})", "g_mean_init A", r"impl<T,\s*const N: usize>"),
+  ("convolve", "convolve.rs", r"Convolve<T,\s*N>", "with_config", st(coefficients=L("coeffs")), st(taps=L("taps")), "{S.state.taps}", "@g_conv_init T", r"impl<T,\s*const N: usize>"),
+  ("delay", "delay.rs", r"Delay<T,\s*N>", "default", None, st(taps=L("taps")), "{S.state.taps}", "@g_conv_init T", r"impl<T,\s*const N: usize>"),
+  ("schmitt", "classify/schmitt.rs", r"Schmitt<T,\s*U>", "with_config", st(thresholds=("array", [v("lo"), v("hi")]), outputs=OUTS2), st(on=B(("btrue",))), "{S.state.on}", "false", r"impl<T,\s*U>"),
+  ("debounce", "classify/debounce.rs", r"Debounce<T,\s*U>", "with_config", st(threshold=n("thr"), predicate=v("pr"), outputs=OUTS2), st(count=n("cnt")), "{S.state.count}", "0%N", r"impl<T,\s*U>"),
+  ("slopes", "classify/slopes.rs", r"Slopes<T,\s*U>", "with_config", st(outputs=OUTS3), st(input=some(v("p"))), "{S.state.input}", "@None T", r"impl<T,\s*U>"),
+]
+def leaves(vv, acc=None):
+    """printed leaf values of a symbolic value, in a fixed order (used to compare a value with its guts round trip)"""
+    from rs2coq import coq_V
+    acc = [] if acc is None else acc
+    if vv[0] == "struct":
+        for k_ in sorted(vv[1]):
+            if k_ != "__sub": leaves(vv[1][k_], acc)
+    elif vv[0] in ("tuple", "array"):
+        for x_ in vv[1]: leaves(x_, acc)
+    elif vv[0] == "variant":
+        acc.append(vv[1]);
+        for x_ in vv[2]: leaves(x_, acc)
+    elif vv[0] == "opt" and vv[1] is not None and vv[1][0] in ("struct", "tuple"):
+        leaves(vv[1], acc)
+    else: acc.append(coq_V(vv))
+    return acc
+EMA_WC = {"Mean::with_config": (F + "mean/exp/mean.rs", r"impl<T>\s+WithConfig\s+for\s+Mean<T>", "with_config", ["config"])}
+MEAN_DF = {"Mean::default": (F + "mean/mean.rs", r"impl<T,\s*const N: usize>\s+Default\s+for\s+Mean<T,\s*N>", "default", [])}
+MM_DF = {"self::min::Min::default": (F + "bounds/min.rs", r"impl<T,\s*const N: usize>\s+Default\s+for\s+Min<T,\s*N>", "default", []),
+         "self::max::Max::default": (F + "bounds/max.rs", r"impl<T,\s*const N: usize>\s+Default\s+for\s+Max<T,\s*N>", "default", []),
+         "State::default": (F + "bounds.rs", r"impl<T,\s*const N: usize>\s+Default\s+for\s+State<T,\s*N>", "default", [])}
+SLOPES_WC = {"Slopes::with_config": (F + "classify/slopes.rs", r"impl<T,\s*U>\s+WithConfig\s+for\s+Slopes<T,\s*U>", "with_config", ["config"]),
+             "Slope::classes": (F + "classify/slopes.rs", r"impl\s+Classification<Slope,\s*3>\s+for\s+Slope", "classes", [], "enum:Slope")}
+CONV_WC = {"Convolve::with_config": (F + "convolve.rs", r"impl<T,\s*const N: usize>\s+WithConfig\s+for\s+Convolve<T,\s*N>", "with_config", ["config"], "Conv")}
+CONV_CFG = {("Conv", "config"): (F + "convolve.rs", r"impl<T,\s*const N: usize>\s+ConfigClone\s+for\s+Convolve<T,\s*N>", [])}
+def meanobj(sm, taps, wt): return st(state=st(mean=sm, taps=L(taps), weight=v(wt)))
+def bst(tm, taps): return st(state=st(time=n(tm), taps=L(taps)))
+def convobj(c, t): return sub("Conv", config=st(coefficients=L(c)), state=st(taps=L(t)))
+BREC = "{| time := {S.%sstate.time}; taps := {S.%sstate.taps} |}"
+G1, GN, GU = r"impl<T>", r"impl<T,\s*const N: usize>", r"impl<T,\s*U>"
+RESET_ROWS = [r_ for r_ in [
+  dict(name=r[0], file=r[1], ty=r[2], ctor=r[3], cfg=r[4], state=r[5], tmpl=r[6], init=r[7], gen=r[8]) for r in RESET_TABLE] + [
+  dict(name="exp_mean_variance", file="mean/exp/mean_variance.rs", ty=r"MeanVariance<T>", ctor="with_config", cfg=st(inverse_width=v("w")), gen=G1, fns=EMA_WC,
+       state=st(mean=ema_obj(("var", "w"), ("var", "a")), variance=ema_obj(("var", "w"), ("var", "b"))), tmpl="({S.state.mean.state.mean}, {S.state.variance.state.mean})", init="@g_mve_init T", binder="(w a b : T)"),
+  dict(name="exp_median", file="median/exp.rs", ty=r"Median<T>", ctor="with_config", cfg=st(pre=st(inverse_width=v("wpre")), mid=v("mid"), post=st(inverse_width=v("wpost"))), gen=G1, fns=EMA_WC,
+       state=st(mean_pre=ema_obj(("var", "wpre"), ("var", "a")), mean_post=ema_obj(("var", "wpost"), ("var", "b")), median=some(v("c"))),
+       tmpl="({S.state.mean_pre.state.mean}, {S.state.mean_post.state.mean}, {S.state.median})", init="@g_xm_init T", binder="(wpre mid wpost a b c : T)"),
+  dict(name="mean_variance", file="mean/mean_variance.rs", ty=r"MeanVariance<T,\s*N>", ctor="default", cfg=None, gen=GN, fns=MEAN_DF,
+       state=st(mean=meanobj(some(v("sm")), "taps", "wt"), variance=meanobj(some(v("sv")), "vtaps", "vwt")),
+       tmpl="(({S.state.mean.state.mean}, {S.state.mean.state.taps}, {S.state.mean.state.weight}), ({S.state.variance.state.mean}, {S.state.variance.state.taps}, {S.state.variance.state.weight}))",
+       init="g_mvw_init A", binder="(sm wt sv vwt : T) (taps vtaps : list T)"),
+  dict(name="max", file="bounds/max.rs", ty=r"Max<T,\s*N>", ctor="default", cfg=None, gen=GN, state=st(time=n("tm"), taps=L("taps")), tmpl=BREC % ("", ""), init="@Bounds.init T", binder="(tm : N) (taps : list (T * N))"),
+  dict(name="min", file="bounds/min.rs", ty=r"Min<T,\s*N>", ctor="default", cfg=None, gen=GN, state=st(time=n("tm"), taps=L("taps")), tmpl=BREC % ("", ""), init="@Bounds.init T", binder="(tm : N) (taps : list (T * N))"),
+  dict(name="bounds", file="bounds.rs", ty=r"Bounds<T,\s*N>", ctor="default", cfg=None, gen=GN, fns=MM_DF, state=st(min=bst("tm", "taps"), max=bst("tm2", "taps2")),
+       tmpl="(" + BREC % ("state.min.", "state.min.") + ", " + BREC % ("state.max.", "state.max.") + ")", init="(@Bounds.init T, @Bounds.init T)", binder="(tm tm2 : N) (taps taps2 : list (T * N))"),
+  dict(name="peaks", file="classify/peaks.rs", ty=r"Peaks<T,\s*U>", ctor="with_config", cfg=st(outputs=OUTS3), gen=GU, fns=SLOPES_WC,
+       state=st(slopes=sub("slopes", config=st(outputs=("array", [("enum", "Rising"), ("enum", "None"), ("enum", "Falling")])), state=st(input=some(v("p")))), slope=some(("enum", "Rising"))),
+       tmpl="({S.state.slopes.state.input}, {S.state.slope}, {S.state.slopes.config.outputs.0}, {S.state.slopes.config.outputs.1}, {S.state.slopes.config.outputs.2})",
+       init="(@None T, @None slope, Rising, Flat, Falling)", binder="(p o0 o1 o2 : T)", imports="Model.Classify"),
+  dict(name="analyze", file="wavelet/analyze.rs", ty=r"Analyze<T,\s*N>", ctor="with_config", cfg=st(low_pass=st(coefficients=L("low")), high_pass=st(coefficients=L("high"))), gen=GN, fns=CONV_WC,
+       class_methods=CONV_CFG, cls="Analyze", own_methods={"config": (F + "wavelet/analyze.rs", r"impl<T,\s*const N: usize>\s+ConfigClone\s+for\s+Analyze<T,\s*N>", [])}, noconfig=True,
+       state=st(low_pass=convobj("low", "tl"), high_pass=convobj("high", "th")),
+       tmpl="(({S.state.low_pass.state.taps}, {S.state.high_pass.state.taps}), ({S.state.low_pass.config.coefficients}, {S.state.high_pass.config.coefficients}))",
+       init="(@g_wav_init T, (low, high))", binder="(low high tl th : list T)"),
+  dict(name="synthesize", file="wavelet/synthesize.rs", ty=r"Synthesize<T,\s*N>", ctor="with_config", cfg=st(low_pass=st(coefficients=L("low")), high_pass=st(coefficients=L("high"))), gen=GN, fns=CONV_WC,
+       class_methods=CONV_CFG, cls="Synthesize", own_methods={"config": (F + "wavelet/synthesize.rs", r"impl<T,\s*const N: usize>\s+ConfigClone\s+for\s+Synthesize<T,\s*N>", [])}, noconfig=True,
+       state=st(low_pass=convobj("low", "tl"), high_pass=convobj("high", "th")),
+       tmpl="(({S.state.low_pass.state.taps}, {S.state.high_pass.state.taps}), ({S.state.low_pass.config.coefficients}, {S.state.high_pass.config.coefficients}))",
+       init="(@g_wav_init T, (low, high))", binder="(low high tl th : list T)"),
+]]
+def reset_entries():
+    for r in RESET_ROWS:
+        name, ty, ctor, cfg, state, tmpl, init, gen = r["name"], r["ty"], r["ctor"], r["cfg"], r["state"], r["tmpl"], r["init"], r["gen"]
+        file_ = rfile(r["file"])
+        ctor_impl = gen + r"\s+" + ("Default" if ctor == "default" else "WithConfig") + r"\s+for\s+" + ty
+        fns = dict(r.get("fns") or {}); fns["Self::" + ctor] = (file_, ctor_impl, ctor, [] if ctor == "default" else ["config"]) + ((r["cls"],) if r.get("cls") else ())
+        if "binder" in r: binder = r["binder"]
+        else:
+            vars_ = " ".join(sorted(set(re.findall(r"'var', '([a-z0-9]+)'", repr((cfg, state)))) - {"o0", "o1", "o2"})) or ""
+            extra = ""
+            if "taps" in repr(state): extra += " (taps : list T)"
+            if "coeffs" in repr(cfg): extra += " (coeffs : list T)"
+            if "nvar" in repr((cfg, state)): extra += " (thr cnt : N)"
+            outs = " (o0 o1 : T)" if "o0" in repr(cfg) and "o2" not in repr(cfg) else " (o0 o1 o2 : T)" if "o2" in repr(cfg) else ""
+            binder = ("(%s : T)" % vars_ if vars_ else "") + extra + outs
+        common = dict(file=file_, imports="Model.Bounds " + r.get("imports", ""), class_methods=r.get("class_methods"), cls=r.get("cls"),
+                      methods={k_: (f_, i_, p_) for k_, (f_, i_, p_) in (r.get("own_methods") or {}).items()})
+        entry("C12", "new_" + name, impl=ctor_impl, fn=ctor, params={} if cfg is None else {"config": cfg}, fns=fns,
+              cases=[dict(self=("unit",), lhs=init, vars=binder)], rhs=tmpl.replace("{S.", "{ret."), **common)
+        selfv = st(state=state) if (cfg is None or r.get("noconfig")) else st(config=cfg, state=state)
+        entry("C12", "reset_" + name, impl=gen + r"\s+Reset\s+for\s+" + ty, fn="reset", params={}, fns=fns,
+              cases=[dict(self=selfv, lhs=init, vars=binder)], rhs=tmpl.replace("{S.", "{ret."), **common)
+        # guts round trip: into_guts, then from_guts of its result, gives back every field (configuration included)
+        fg = dict(fns); fg["Self::from_guts"] = (file_, gen + r"\s+FromGuts\s+for\s+" + ty, "from_guts", ["guts"])
+        entry("C20", "guts_" + name, impl=gen + r"\s+IntoGuts\s+for\s+" + ty, fn="into_guts", params={}, fns=fg, roundtrip=True,
+              cases=[dict(self=selfv, lhs="(%s)" % ", ".join(leaves(selfv)), vars=binder)], rhs="",
+              render=lambda sym, s_, ret_, c_: "(%s)" % ", ".join(leaves(ret_)), **common)
+reset_entries()
+
+# Cache<T, U> over an ARBITRARY inner registry machine m: filter, reset, cached, from
+MACH_HDR = "forall (m : machine) (c : list Q)"
+def mach(name): return ("obj", "mach", name)
+def prim_mach_filter(sym, o, args):
+    from rs2coq import coq_V
+    k = sym.fresh(); s1, y = "s%d" % k, "y%d" % k
+    sym.dyn_vars += [(s1, "St m"), (y, "list Q")]
+    sym.dyn_hyps.append("mstep m c %s %s = Some (%s, %s)" % (o[2], coq_V(args[0]), s1, y))
+    return T(("var", y)), mach(s1)
+MACH = {("mach", "filter"): prim_mach_filter, ("mach", "reset"): lambda sym, o, a: (mach("(mreset m c %s)" % o[2]), None)}
+MACH_SCRIPT = "intros. cbn. repeat (match goal with H : _ = _ |- _ => rewrite H; cbn end). reflexivity."
+for ko, kt, kv in ((NONE, "None", ""), (some(v("k")), "(Some k)", " (k : list Q)")):
+    tag = "none" if kt == "None" else "some"
+    cself = st(state=st(inner=mach("si"), cached=ko))
+    entry("C20", "cache_filter_" + tag, file=F + "cache.rs", impl=r"impl<T,\s*U,\s*V>\s+Filter<V>\s+for\s+Cache<T,\s*U>", fn="filter", params={"input": v("i")}, header=MACH_HDR, prims=MACH,
+          script=MACH_SCRIPT, imports="Base.QR Model.Registry", cases=[dict(self=cself, lhs="mstep (m_cache m) c (si, %s) i" % kt, vars="(si : St m) (i : list Q)" + kv)],
+          rhs="Some (({self.state.inner}, {self.state.cached}), {ret})")
+    entry("C20", "cache_reset_" + tag, file=F + "cache.rs", impl=r"impl<T,\s*U>\s+Reset\s+for\s+Cache<T,\s*U>", fn="reset", params={}, header=MACH_HDR, prims=MACH,
+          script=MACH_SCRIPT, imports="Base.QR Model.Registry", cases=[dict(self=cself, lhs="mreset (m_cache m) c (si, %s)" % kt, vars="(si : St m)" + kv)],
+          rhs="({ret.state.inner}, {ret.state.cached})")
+    entry("C20", "cache_cached_" + tag, file=F + "cache.rs", impl=r"impl<T,\s*U>\s+Cache<T,\s*U>(?=\s*\{)", fn="cached", params={}, header=MACH_HDR, prims=MACH,
+          script=MACH_SCRIPT, imports="Base.QR Model.Registry", cases=[dict(self=cself, lhs="@cached m (si, %s)" % kt, vars="(si : St m)" + kv)], rhs="{ret}")
+entry("C20", "cache_from", file=F + "cache.rs", impl=r"impl<T,\s*U>\s+From<T>\s+for\s+Cache<T,\s*U>", fn="from", params={"inner": mach("(minit m c)")}, header=MACH_HDR, prims=MACH,
+      script=MACH_SCRIPT, imports="Base.QR Model.Registry", cases=[dict(self=("unit",), lhs="minit (m_cache m) c", vars="")], rhs="({ret.state.inner}, {ret.state.cached})")
+entry("C12", "reset_threshold", file=F + "classify/threshold.rs", impl=r"impl<T,\s*U>\s+Reset\s+for\s+Threshold<T,\s*U>", fn="reset", params={},
+      cases=[dict(self=st(config=st(threshold=v("thr"), outputs=OUTS2)), lhs="(thr, o0, o1)", vars="thr o0 o1")], rhs="({ret.config.threshold}, {ret.config.outputs.0}, {ret.config.outputs.1})")
+
+# ---- source-level assertions: Clone is DERIVED for these types (so clone / clone_from copy every field, which is what the
+# models' `mclone` and the identity reading of Cycle's `orig.clone()` assume); a hand-written Clone impl breaks the obligation
+def derived_clone(pid, rel_root, rel, types):
+    for ty in types:
+        ASSERTS.setdefault(pid, []).append(dict(name="derived_clone_%s_%s" % (rel.replace("/", "_").replace(".rs", ""), ty), file=rel_root + rel,
+            must=[r"#\[derive\([^)]*\bClone\b[^)]*\)\]\s*(?:#\[[^\]]*\]\s*|///[^\n]*\n\s*)*(?:pub\s+)?(?:struct|enum)\s+%s\b" % ty],
+            mustnot=[r"impl\s*<[^{;]*>\s*Clone\s+for\s+%s\b" % ty, r"impl\s+Clone\s+for\s+%s\b" % ty]))
+ASSERTS = {}
+for rel, tys in (("mean/mean.rs", ["Mean", "State"]), ("mean/mean_variance.rs", ["MeanVariance", "State"]), ("mean/exp/mean.rs", ["Mean", "State", "Config"]),
+                 ("mean/exp/mean_variance.rs", ["MeanVariance", "State"]), ("median.rs", ["Median", "State", "ListNode"]), ("median/exp.rs", ["Median", "State"]),
+                 ("bounds/max.rs", ["Max", "State"]), ("bounds/min.rs", ["Min", "State"]), ("bounds.rs", ["Bounds", "State"]), ("classify/threshold.rs", ["Threshold"]),
+                 ("classify/schmitt.rs", ["Schmitt", "State"]), ("classify/debounce.rs", ["Debounce", "State"]), ("classify/slopes.rs", ["Slopes", "State"]),
+                 ("classify/peaks.rs", ["Peaks", "State"]), ("convolve.rs", ["Convolve", "State"]), ("delay.rs", ["Delay", "State"]), ("differentiate.rs", ["Differentiate", "State"]),
+                 ("integrate.rs", ["Integrate", "State"]), ("hampel.rs", ["Hampel", "State"]), ("observe/alpha_beta.rs", ["AlphaBeta", "State"]), ("observe/kalman.rs", ["Kalman", "State"]),
+                 ("wavelet/analyze.rs", ["Analyze", "State"]), ("wavelet/synthesize.rs", ["Synthesize", "State"]), ("cache.rs", ["Cache", "State"])):
+    derived_clone("C20", F, rel, tys)
+for rel, tys in (("chain.rs", ["Chain", "ChainState"]), ("take.rs", ["Take"]), ("skip.rs", ["Skip"]), ("cycle.rs", ["Cycle"]), ("constant.rs", ["Constant"]), ("repeat.rs", ["Repeat"]),
+                 ("increment.rs", ["Increment"]), ("from_iter.rs", ["FromIter"]), ("into_iter.rs", ["IntoIter"]), ("pad/constant.rs", ["Pad", "PadState"]), ("pad/edge.rs", ["Pad", "PadState"]),
+                 ("peek.rs", ["Peek", "State"]), ("cache.rs", ["Cache", "State"])):
+    derived_clone("C10", REPO + "/crates/sources/src/", rel, tys)
+for rel, tys in (("pipe.rs", ["Pipe"]), ("unit_pipe.rs", ["UnitPipe"])):
+    derived_clone("C01", REPO + "/crates/pipes/src/", rel, tys)
+
 # ---- constants compiled into macro invocations ---------------------------------------------------------
 CONSTS = {"C18": [dict(name="hampel_factor", file=F + "hampel.rs", regex=r"impl_hampel_filter!\(\s*(f32|f64)\s*=>\s*([0-9][0-9_]*\.[0-9_]*)\s*\)", expect=2,
                        lemma="From Coq Require Import QArith Qcanon.\nFrom Signalo Require Import Model.Hampel.\nLemma hampel_factor_%(k)s : Q2Qc (%(q)s) = mad_factor.\nProof. apply Qc_is_canon. reflexivity. Qed.\n")]}
@@ -800,6 +982,9 @@ def run_case(ent, case, body_ast, params_txt, assume=None):
     for mname, (mfile, mimpl, mparams) in (ent.get("methods") or {}).items():      # helper methods of the receiver's own class
         mbody, _ = find_method(open(mfile).read(), mimpl, mname)
         sym.subs[(ent["cls"], mname)] = (parse_body(mbody), mparams)
+    for (ccls, cname), (cfile, cimpl, cparams) in (ent.get("class_methods") or {}).items():
+        cbody, _ = find_method(open(cfile).read(), cimpl, cname)
+        sym.subs[(ccls, cname)] = (parse_body(cbody), cparams)
     sym.loop_summary = ent.get("loop_summary")
     sym.while_handler = ent.get("while_handler")
     if isinstance(ent.get("select"), tuple):          # ("while", k) / ("for", k): only the k-th loop statement of that kind
@@ -814,13 +999,13 @@ def run_case(ent, case, body_ast, params_txt, assume=None):
             return acc
         found = deep(body_ast, [])
         if kth >= len(found): raise Unsupported("the body has only %d `%s` loops" % (len(found), kind))
-        body_ast = ("block", [("expr", found[kth])], None)
+        body_ast = found[kth][3] if (ent.get("unwrap_for") and kind == "for") else ("block", [("expr", found[kth])], None)
     if assume is not None: sym.assume = list(assume)
     sym.curbuf = ent.get("curbuf")
     if ent.get("select") == "for_body":
         fors = [st_[1] for st_ in body_ast[1] if st_[0] == "expr" and st_[1][0] == "for"] + ([body_ast[2]] if body_ast[2] is not None and body_ast[2][0] == "for" else [])
         if len(fors) != 1: raise Unsupported("expected exactly one for loop in the body, found %d" % len(fors))
-        if fors[0][1] != ("pid", ent["loop_var"]): raise Unsupported("the loop variable is not `%s`" % ent["loop_var"])
+        if ent.get("loop_var") and fors[0][1] != ("pid", ent["loop_var"]): raise Unsupported("the loop variable is not `%s`" % ent["loop_var"])
         body_ast = fors[0][3]
     env = Env()
     selfv = case["self"]
@@ -839,6 +1024,13 @@ def run_case(ent, case, body_ast, params_txt, assume=None):
         pe.sym = sym
         raise
     sym.final_env = env
+    if ent.get("roundtrip"):
+        fast, fparams = sym.fns["Self::from_guts"][:2]
+        inner = Env(); inner.vars[fparams[0]] = ret
+        try:
+            ret = sym.block(fast, inner)
+        except Return as r:
+            ret = r.value
     return sym, env.get("self") if "self" in env.vars else ("unit",), ret
 
 
@@ -849,7 +1041,7 @@ def opt_path(vv, path):
         if f == "?":
             if vv[0] != "opt" or vv[1] is None: raise Unsupported("expected Some(_) in the result")
             vv = vv[1]
-        elif f.isdigit() and vv[0] == "tuple":
+        elif f.isdigit() and vv[0] in ("tuple", "array"):
             vv = vv[1][int(f)]
         else:
             vv = lookup(vv, [f])
@@ -921,6 +1113,7 @@ def translate_entry(ent):
             "From Coq Require Import NArith List.\nImport ListNotations.\nFrom Signalo Require Import Base.Arith Base.Opt Base.Machine Model.Generic %s.\n%s" % (ent.get("imports", ""), ent.get("preamble", ""))]
     count = 0
     for i, case in enumerate(ent["cases"]):
+        if "lhs_self_template" in case: case = dict(case, lhs="(%s)" % fill2(case["lhs_self_template"], case["self"], ("unit",)))
         if not ent.get("split"):
             sym, selfv, ret = run_case(ent, case, ast, params_txt)
             t, k = lemma_text(ent, i, case, sym, selfv, ret)
@@ -980,6 +1173,18 @@ def regenerate(pid, ROOT, BUILD):
         f = os.path.join(gen, "Const_%s.v" % c["name"])
         open(f, "w").write(text)
         files.append((c["name"], f, c["expect"])); info["bodies"][c["name"]] = c["expect"]
+    for a in ASSERTS.get(pid, []):
+        info["obligations"] += 1
+        try:
+            import tables
+            txt = tables.strip_comments(open(a["file"]).read()) if False else open(a["file"]).read()
+            ok_ = all(re.search(rx, txt) for rx in a["must"]) and not any(re.search(rx, txt) for rx in a["mustnot"])
+        except OSError:
+            ok_ = False
+        if ok_: info["discharged"] += 1
+        else:
+            info["failed"].append(a["name"]); info.setdefault("logs", {})[a["name"]] = "source assertion failed: Clone is no longer (only) derived for this type in %s" % a["file"]
+        info["bodies"][a["name"]] = "assertion" if ok_ else "assertion FAILED"
     def coqc(nf):
         p = subprocess.run(["coqc", "-noglob", "-Q", COQ, "Signalo", os.path.basename(nf[1])], cwd=gen, stdout=subprocess.PIPE, stderr=subprocess.STDOUT, text=True, timeout=600)
         return p.returncode == 0, p.stdout[-500:]
@@ -996,6 +1201,6 @@ def regenerate(pid, ROOT, BUILD):
 if __name__ == "__main__":
     import sys, json
     ROOT = os.path.dirname(os.path.dirname(os.path.abspath(__file__)))
-    for pid in (sys.argv[1:] or sorted(set(ENTRIES) | set(CONSTS))):
+    for pid in (sys.argv[1:] or sorted(set(ENTRIES) | set(CONSTS) | set(ASSERTS))):
         ok, info = regenerate(pid, ROOT, os.path.join(ROOT, "build"))
         print(pid, json.dumps({k: info[k] for k in ("obligations", "discharged", "failed", "bodies")}), info.get("logs", ""))
